@@ -328,6 +328,8 @@ def summarise(ctx, rule, bname, sc, zaccessors=("_segment_close_point", "z_point
             body.append(s)
     # raise on a missing current point: find the exception by running the scenario "no current point" is not needed: read it off the guard
     res = ev.run(body)
+    if res[0] == "continue":
+        res = ("fall", None)  # `continue` in the operand-group loop: this group is done
     out.exit = res[0]
     out.exit_node = res[1]
     for t in cur_tests:
